@@ -64,7 +64,7 @@ def defectScalar (singular : Bool) : Scalar → Value → Option Defect
     else if !F32.exact b then some .f32
     else if singular && b == negZero64 then some .negZero else none
   | .bool, .bool _ => none
-  | .string, .bytes b => if Utf8.valid b then none else some .utf8
+  | .string, .bytes b => if Utf8L.valid b then none else some .utf8
   | .bytes, .bytes _ => none
   | s, .int i =>
     match s.carrier with
@@ -200,9 +200,9 @@ def MsgDesc.Ok (md : MsgDesc) : Bool :=
   distinctBy (fun f : Field => f.name) md.fields && distinctBy (fun f : Field => f.number) md.fields
 
 def EnumDesc.Ok (ed : EnumDesc) : Bool :=
-  distinctBy (fun p : List Nat × Int => p.1.map Utf8.lowerAscii) ed.values &&
+  distinctBy (fun p : List Nat × Int => p.1.map Utf8L.lowerAscii) ed.values &&
   distinctBy (fun p : List Nat × Int => p.2) ed.values &&
-  ed.values.all (fun p => Utf8.valid p.1)
+  ed.values.all (fun p => Utf8L.valid p.1)
 
 /-- what protoc guarantees about the descriptors and the round trip relies on -/
 def Pool.Ok (p : Pool) : Bool := p.msgs.all MsgDesc.Ok && p.enums.all EnumDesc.Ok
